@@ -99,7 +99,7 @@ def _macro_defs(rng, terms):
             alts.append(a1)
             a2 = _named_alt([t(), N("X")])
             op2 = rng.choice(["!=", "==", "~~", "!~"])
-            a2.cond = ("X", op2, rng.choice(["^[ab]$", "[c-e]", "^a", "b$", "^.$"]) if op2 in ("~~", "!~") else rng.choice([lit2, lit]))
+            a2.cond = ("X", op2, rng.choice(["^[ab]$", "[c-e]", "^a", "b$", "^.$", "a", "b", "ab", "c", "bc"]) if op2 in ("~~", "!~") else rng.choice([lit2, lit]))
             alts.append(a2)
             a3 = _named_alt([N("X")])
             if rng.random() < 0.5:
@@ -126,6 +126,12 @@ def gen_macros(rng):
     if rng.random() < 0.3:
         # terminal names that look like macro syntax: try to confuse printed cache keys
         for extra in rng.sample([",", ">", "<", "a, b", "(", ")", "*", "?", "a>", "<a"], 2):
+            if extra not in terms:
+                terms.append(extra)
+        g.terms = terms
+    if rng.random() < 0.6:
+        # multi-character literals: regex conditions are unanchored searches, not equality
+        for extra in rng.sample(["ab", "abc", "ba", "bc", "cab", "aa"], 3):
             if extra not in terms:
                 terms.append(extra)
         g.terms = terms
@@ -209,10 +215,10 @@ def gen_prec(rng):
     if rng.random() < 0.8:
         alts.append((levels[0], None, [T("("), E(), T(")")]))
     for l in levels[1:]:
-        for _ in range(rng.choice([1, 1, 2])):
+        for _ in range(rng.choice([1, 2, 2, 3])):
             if len(ops) < 3:
                 break
-            kind = rng.choice(["bin", "bin", "bin", "prefix", "postfix", "ternary", "nary", "grp", "opt"])
+            kind = rng.choice(["bin", "bin", "prefix", "prefix", "postfix", "postfix", "ternary", "nary", "grp", "opt"])
             assoc = rng.choice(["left", "right", "none", "left", None, "all"])
             if kind == "bin":
                 items = [E(), op(), E()]
@@ -240,8 +246,21 @@ def gen_prec(rng):
             alts.append((l, assoc, items))
     # source order: interleave levels; each alternative gets explicit or inherited attributes
     order = list(range(len(alts)))
-    if rng.random() < 0.6:
+    k_ord = rng.random()
+    if k_ord < 0.4:
         rng.shuffle(order)
+    elif k_ord < 0.7:
+        # keep the alternatives of one level together (so levels get restated / inherited),
+        # but shuffle inside each level and shuffle the levels
+        by = {}
+        for i, (l, a, it) in enumerate(alts):
+            by.setdefault(l, []).append(i)
+        ls = list(by)
+        rng.shuffle(ls)
+        order = []
+        for l in ls:
+            rng.shuffle(by[l])
+            order += by[l]
     out = []
     cur_l, cur_a = None, "all"
     for idx in order:
@@ -249,7 +268,7 @@ def gen_prec(rng):
         eff = a if a is not None else "all"
         pl = None
         pa = None
-        if cur_l != l or rng.random() < 0.3:
+        if cur_l != l or rng.random() < 0.5:
             pl = l
             cur_l, cur_a = l, "all"
         if eff != cur_a:
